@@ -184,7 +184,50 @@ func init() {
 				}
 			}
 		}
-		check()
+		inject, _ := spec.Opt["inject"].(bool)
+		// C03's error clause on grammars WITH error alternatives: whichever action occurrence fails, Parse stops, runs
+		// no further action, does not scan on, and returns an error that carries it (recovery must not swallow it)
+		injectCheck := func() {
+			base := &rt.Recorder{}
+			im.NewParser().Parse(seqTypes(im, seq), base, 0, len(seq)+4)
+			m := len(renderCalls(base))
+			pre := fmt.Sprintf("tokens [%s]: ", strings.Join(seq, " "))
+			for j := 1; j <= m; j++ {
+				rec := &rt.Recorder{FailAt: j}
+				res := im.NewParser().Parse(seqTypes(im, seq), rec, 0, len(seq)+4)
+				st.add("injected_failures", 1)
+				key := fmt.Sprintf("%s [%s] fail%d", it.ID, strings.Join(seq, " "), j)
+				cs := map[string]any{"tokens": append([]string(nil), seq...), "log": logStr(rec), "fail_at": j}
+				nActs := len(renderCalls(rec))
+				last := ""
+				if len(rec.Log) > 0 {
+					last = rec.Log[len(rec.Log)-1].Kind
+				}
+				switch {
+				case res.Panic != "" || res.Budget:
+					st.violation("C03", key, fmt.Sprintf("%saction #%d fails: Parse panicked/looped: %s", pre, j, res.Panic), cs)
+				case res.Err == nil && res.ErrOther == "":
+					st.violation("C03", key, fmt.Sprintf("%saction #%d returns an error but Parse returns a nil error (log: %s)", pre, j, logStr(rec)), cs)
+				case res.Err != nil && !res.Err.Injected:
+					st.violation("C03", key, fmt.Sprintf("%saction #%d returns an error but the error returned by Parse does not carry it (Err=%q)", pre, j, res.Err.ErrText), cs)
+				case nActs != j:
+					st.violation("C03", key, fmt.Sprintf("%saction #%d fails but %d actions ran", pre, j, nActs), cs)
+				case last != "act":
+					st.violation("C03", key, fmt.Sprintf("%saction #%d fails but the scanner was called afterwards", pre, j), cs)
+				default:
+					st.dist(fmt.Sprint("inject", j, m))
+				}
+			}
+		}
+		step := func() {
+			if inject {
+				st.add("sequences", 1)
+				injectCheck()
+			} else {
+				check()
+			}
+		}
+		step()
 		var walk func(d int)
 		walk = func(d int) {
 			if d == n {
@@ -192,7 +235,7 @@ func init() {
 			}
 			for _, t := range terms {
 				seq = append(seq, t)
-				check()
+				step()
 				walk(d + 1)
 				seq = seq[:len(seq)-1]
 			}
